@@ -131,8 +131,15 @@ def correspondence(ctx, batch):
             mp = [m.split("_") if "_" in m else m]
             cli = Cli()
             cli.validate(mp, "base", None)
-            name, args = (mp[0], ()) if isinstance(mp[0], str) else (mp[0][0], mp[0][1:])
-            return stages.enc_cmp(Cli.MODEL_CMP_MAPPING[name](*args))
+            # through the real set_args, among other items of the same kinds: the list it stores has one comparator per
+            # item, in the order given
+            around = [["percent", "12"], mp[0], ["number", "2"], ["percent", "77"], "exact", ["number", "9"]]
+            cli.set_args(around, "flat", "base", None, [], [], [], False, None)
+            got = [stages.enc_cmp(c) for c in cli.merge_policy]
+            rest = got[:1] + got[2:]
+            if len(got) != 6 or rest != [["percent", 3, 25], ["number", 2], ["percent", 77, 100], ["exact"], ["number", 9]]:
+                return {"merge-list": got}
+            return got[1]
         ans = stages.impl_call(run)
         parts = m.split("_")
         pt, it = [], []
@@ -315,6 +322,19 @@ def dkr_case(rng):
     return [{k: sample[k] for k in keys[:rng.randint(3, 7)]}], {"dkr": pats}, ["--dkr"] + pats
 
 
+REPEATED_KINDS = [["number_2", "number_6"], ["percent_30", "percent_90"], ["number_3", "exact", "number_9"],
+                  ["percent_90", "percent_30"], ["number_6", "number_2"]]
+
+
+def repeated_kind_case(rng, which=None):
+    """`--merge` listing one kind twice with different arguments, the stricter last: every listed comparator counts"""
+    a = {"k%d" % i: i for i in range(6)}
+    b = {"k%d" % i: i for i in range(3)}
+    b.update({"z0": 1, "z1": 2, "z2": 3})                      # 3 shared of 9: ratio 1/3, 3 common keys
+    merge = REPEATED_KINDS[which] if which is not None else rng.choice(REPEATED_KINDS)
+    return [{"first": a, "second": b}], {"merge": merge}, ["--merge"] + merge
+
+
 def empty_object_case(rng):
     """an empty object as a whole document / as what a lookup selects is a sample like any other (the fields of the other
     samples become optional)"""
@@ -338,6 +358,15 @@ def falsify(ctx):
         for i in range(len(BOUNDARY_NS) + ctx.n(12, 120)):
             d = os.path.join(root, "b%d" % i)
             os.makedirs(d)
+            if i < len(REPEATED_KINDS):
+                # every repeated-kind merge list, each run (next to the boundary case of the same index)
+                d2 = os.path.join(root, "r%d" % i)
+                os.makedirs(d2)
+                samples, opts, oargv = repeated_kind_case(rng, i)
+                clitools.write_files(d2, {"b.json": samples})
+                full = ["-m", "Root", "b.json"] + oargv
+                jobs.append((full, d2, ctx.repo))
+                metas.append((samples, {"b.json": samples}, full, opts, False, "boundary", d2))
             if i < len(BOUNDARY_NS):
                 # every threshold whose N/100 an inexact conversion would miss, each run
                 samples, opts, oargv = boundary_case(rng, BOUNDARY_NS[i])
@@ -352,7 +381,7 @@ def falsify(ctx):
                 jobs.append((argv_e, d, ctx.repo))
                 metas.append((samples, files_e, argv_e, {}, False, "empty-object", d))
                 continue
-            samples, opts, oargv = boundary_case(rng) if i % 3 == 0 else dkr_case(rng)
+            samples, opts, oargv = boundary_case(rng) if i % 3 == 0 else (dkr_case(rng) if i % 2 else repeated_kind_case(rng))
             clitools.write_files(d, {"b.json": samples})
             full = ["-m", "Root", "b.json"] + oargv
             jobs.append((full, d, ctx.repo))
